@@ -249,6 +249,8 @@ func checkC17(c *Ctx) {
 	checkAliasExpansionGuard(c, "C17.R1.alias-recursion", pk)
 	checkModelsRescanned(c, "C17.R8.models-rescanned", pk)
 	checkCommentsRaw(c, "C17.R8.comments-raw", pk)
+	checkModelIdentity(c, "C17.R6.model-identity", pk)
+	checkSpecYAMLExact(c, "C17.R8.yaml-exact")
 	checkSpecDocFirst(c, "C17.R8.spec-doc-first", pk)
 	checkParameterIdentity(c, "C17.R3.parameter-identity", pk)
 	checkBodyHasLastWord(c, "C17.R3.body-last-word", pk)
